@@ -1,22 +1,26 @@
-(* Decimal rendering of a length and its parse: parse_int 10 (dec n) = n for n < 2^62 (Content-Length values). *)
+(* Rendering of a length in base 10 / 16 and its parse: parse_int base (ren base n) = n for n < 2^62
+   (Content-Length values, chunk sizes). *)
 Require Import HttpParser.
 From Coq Require Import List NArith ZArith Bool Lia.
 Import ListNotations.
 Open Scope N_scope.
 
-Fixpoint dec_fuel (f : nat) (n : N) (acc : list N) : list N :=
+Definition dchar (d : N) : N := if d <? 10 then 48 + d else 87 + d.     (* 0-9, a-f *)
+
+Fixpoint ren_fuel (base : N) (f : nat) (n : N) (acc : list N) : list N :=
   match f with
   | O => acc
-  | S f' => let acc' := (48 + n mod 10) :: acc in
-            if n / 10 =? 0 then acc' else dec_fuel f' (n / 10) acc'
+  | S f' => let acc' := dchar (n mod base) :: acc in
+            if n / base =? 0 then acc' else ren_fuel base f' (n / base) acc'
   end.
-Definition dec (n : N) : list N := dec_fuel 20 n [].
+Definition dec (n : N) : list N := ren_fuel 10 20 n [].
+Definition hex (n : N) : list N := ren_fuel 16 16 n [].
 
-Lemma dec_fuel_acc f : forall n acc, dec_fuel f n acc = dec_fuel f n [] ++ acc.
+Lemma ren_fuel_acc base f : forall n acc, ren_fuel base f n acc = ren_fuel base f n [] ++ acc.
 Proof.
-  induction f as [|f IH]; intros n acc; cbn [dec_fuel]; [reflexivity|].
-  destruct (n / 10 =? 0); [reflexivity|].
-  rewrite (IH (n / 10) ((48 + n mod 10) :: acc)), (IH (n / 10) [48 + n mod 10]). now rewrite <- app_assoc.
+  induction f as [|f IH]; intros n acc; cbn [ren_fuel]; [reflexivity|].
+  destruct (n / base =? 0); [reflexivity|].
+  rewrite (IH (n / base) (dchar (n mod base) :: acc)), (IH (n / base) [dchar (n mod base)]). now rewrite <- app_assoc.
 Qed.
 
 Lemma parse_digits_app base l1 : forall a l2,
@@ -26,72 +30,112 @@ Proof.
   destruct (digit_val base c); [apply IH|reflexivity].
 Qed.
 
-Lemma digit_val_dec d : d < 10 -> digit_val 10 (48 + d) = Some d.
+Lemma digit_val_dchar base d : d < base -> base <= 16 -> digit_val base (dchar d) = Some d.
 Proof.
-  intros H. unfold digit_val, is_num.
-  assert (E1 : (48 <=? 48 + d) = true) by (apply N.leb_le; lia).
-  assert (E2 : (48 + d <=? 57) = true) by (apply N.leb_le; lia).
-  rewrite E1, E2. cbn [andb]. replace (48 + d - 48) with d by lia.
-  destruct (N.ltb_spec d 10); [reflexivity|lia].
+  intros H Hb. unfold digit_val, dchar, is_num. destruct (N.ltb_spec d 10) as [L|L].
+  - assert (E1 : (48 <=? 48 + d) = true) by (apply N.leb_le; lia).
+    assert (E2 : (48 + d <=? 57) = true) by (apply N.leb_le; lia).
+    rewrite E1, E2. cbn [andb]. replace (48 + d - 48) with d by lia.
+    destruct (N.ltb_spec d base); [reflexivity|lia].
+  - assert (E1 : (48 <=? 87 + d) = true) by (apply N.leb_le; lia).
+    assert (E2 : (87 + d <=? 57) = false) by (apply N.leb_gt; lia).
+    assert (E3 : (97 <=? 87 + d) = true) by (apply N.leb_le; lia).
+    assert (E4 : (87 + d <=? 122) = true) by (apply N.leb_le; lia).
+    rewrite E1, E2, E3, E4. cbn [andb]. replace (87 + d - 87) with d by lia.
+    destruct (N.ltb_spec d base); [reflexivity|lia].
 Qed.
 
-Lemma parse_dec_fuel f : forall n, n < 10 ^ N.of_nat f -> n < 2 * LIM -> 0 < N.of_nat f ->
-  parse_digits 10 0 (dec_fuel f n []) = Some n.
+Lemma parse_ren_fuel base f : 2 <= base -> base <= 16 -> forall n, n < base ^ N.of_nat f -> n < 2 * LIM -> 0 < N.of_nat f ->
+  parse_digits base 0 (ren_fuel base f n []) = Some n.
 Proof.
+  intros Hb2 Hb16.
   induction f as [|f IH]; intros n Hn Hl Hf; [lia|].
-  cbn [dec_fuel]. pose proof (N.mod_lt n 10 ltac:(lia)) as Hm. pose proof (N.div_mod n 10 ltac:(lia)) as Hd.
-  destruct (N.eqb_spec (n / 10) 0) as [E|E].
-  - cbn [parse_digits]. rewrite (digit_val_dec _ Hm). cbn [parse_digits]. f_equal.
+  cbn [ren_fuel]. pose proof (N.mod_lt n base ltac:(lia)) as Hm. pose proof (N.div_mod n base ltac:(lia)) as Hd.
+  destruct (N.eqb_spec (n / base) 0) as [E|E].
+  - cbn [parse_digits]. rewrite (digit_val_dchar base _ Hm Hb16). cbn [parse_digits]. f_equal.
     rewrite E in Hd. rewrite N.min_l by lia. lia.
-  - rewrite dec_fuel_acc, parse_digits_app.
+  - rewrite ren_fuel_acc, parse_digits_app.
     assert (Hf' : 0 < N.of_nat f).
-    { destruct f; [|lia]. cbn in Hn. assert (n / 10 = 0) by (apply N.div_small; lia). contradiction. }
+    { destruct f; [|lia]. change (N.of_nat 1) with 1 in Hn. rewrite N.pow_1_r in Hn. assert (n / base = 0) by (apply N.div_small; lia). contradiction. }
+    assert (Hdl : n / base <= n) by (apply N.div_le_upper_bound; nia).
     rewrite IH; auto.
-    + cbn [parse_digits]. rewrite (digit_val_dec _ Hm). cbn [parse_digits]. f_equal. rewrite N.min_l by lia. lia.
+    + cbn [parse_digits]. rewrite (digit_val_dchar base _ Hm Hb16). cbn [parse_digits]. f_equal. rewrite N.min_l by nia. lia.
     + rewrite Nat2N.inj_succ, N.pow_succ_r' in Hn. apply N.div_lt_upper_bound; lia.
-    + assert (n / 10 <= n) by (apply N.div_le_upper_bound; lia). lia.
+    + lia.
 Qed.
 
-Lemma is_num_digit d : d < 10 -> is_num (48 + d) = true.
-Proof. intros H. unfold is_num. apply andb_true_iff. split; apply N.leb_le; lia. Qed.
+(* every byte of a rendering is a digit character of the base *)
+Definition digit_of (base c : N) : Prop := exists d, d < base /\ c = dchar d.
+
+Lemma ren_fuel_digits base f : 0 < base -> forall n acc, Forall (digit_of base) acc -> Forall (digit_of base) (ren_fuel base f n acc).
+Proof.
+  intros Hb. induction f as [|f IH]; intros n acc Ha; cbn [ren_fuel]; auto.
+  assert (Hd : Forall (digit_of base) (dchar (n mod base) :: acc)).
+  { constructor; auto. exists (n mod base). split; auto. apply N.mod_lt; lia. }
+  destruct (n / base =? 0); auto.
+Qed.
+
+Lemma ren_fuel_nonempty base f n : exists c t, ren_fuel base (S f) n [] = c :: t.
+Proof.
+  cbn [ren_fuel]. destruct (n / base =? 0); [eauto|].
+  rewrite ren_fuel_acc. destruct (ren_fuel base f (n / base) []); cbn [app]; eauto.
+Qed.
+
+Lemma digit10_num c : digit_of 10 c -> is_num c = true.
+Proof.
+  intros (d & Hd & ->). unfold dchar. destruct (N.ltb_spec d 10); [|lia].
+  unfold is_num. apply andb_true_iff. split; apply N.leb_le; lia.
+Qed.
+Lemma digit16_hex c : digit_of 16 c -> is_hex c = true.
+Proof.
+  intros (d & Hd & ->). unfold dchar, is_hex, is_num. destruct (N.ltb_spec d 10).
+  - assert (E1 : (48 <=? 48 + d) = true) by (apply N.leb_le; lia).
+    assert (E2 : (48 + d <=? 57) = true) by (apply N.leb_le; lia). now rewrite E1, E2.
+  - assert (E3 : (97 <=? 87 + d) = true) by (apply N.leb_le; lia).
+    assert (E4 : (87 + d <=? 102) = true) by (apply N.leb_le; lia). rewrite E3, E4. cbn. apply orb_true_r.
+Qed.
+Lemma digit_not_sign base c : base <= 16 -> digit_of base c -> c <> PLUS /\ c <> MINUS /\ c <> SP /\ c <> CR /\ c <> LF.
+Proof.
+  intros Hb (d & Hd & ->). unfold dchar, PLUS, MINUS, SP, CR, LF. destruct (N.ltb_spec d 10); lia.
+Qed.
+
+Lemma dec_digits n : Forall (fun c => is_num c = true) (dec n).
+Proof. eapply Forall_impl; [exact digit10_num|]. apply ren_fuel_digits; [lia|constructor]. Qed.
+Lemma hex_digits n : Forall (fun c => is_hex c = true) (hex n).
+Proof. eapply Forall_impl; [exact digit16_hex|]. apply ren_fuel_digits; [lia|constructor]. Qed.
 
 Lemma dec_head n : exists c t, dec n = c :: t /\ is_num c = true.
 Proof.
-  unfold dec. assert (G : forall f m acc, (exists c t, acc = c :: t /\ is_num c = true) ->
-                         exists c t, dec_fuel f m acc = c :: t /\ is_num c = true).
-  { induction f as [|f IH]; intros m acc Ha; cbn [dec_fuel]; auto.
-    assert (Hd : exists c t, (48 + m mod 10) :: acc = c :: t /\ is_num c = true).
-    { exists (48 + m mod 10), acc. split; auto. apply is_num_digit, N.mod_lt; lia. }
-    destruct (m / 10 =? 0); auto. }
-  change 20%nat with (S 19). generalize 19%nat as f0. intros f0. cbn [dec_fuel]. pose proof (N.mod_lt n 10 ltac:(lia)) as Hm.
-  assert (Hd : exists c t, [48 + n mod 10] = c :: t /\ is_num c = true).
-  { exists (48 + n mod 10), []. split; auto. apply is_num_digit; assumption. }
-  destruct (n / 10 =? 0); auto.
+  destruct (ren_fuel_nonempty 10 19 n) as (c & t & E). exists c, t. split; [exact E|].
+  pose proof (dec_digits n) as H. unfold dec in H. rewrite E in H. inversion H as [|? ? H1 H2]; subst. assumption.
+Qed.
+Lemma hex_head n : exists c t, hex n = c :: t /\ is_hex c = true /\ Forall (fun c => is_hex c = true) t.
+Proof.
+  destruct (ren_fuel_nonempty 16 15 n) as (c & t & E). exists c, t. split; [exact E|].
+  pose proof (hex_digits n) as H. unfold hex in H. rewrite E in H. inversion H as [|? ? H1 H2]; subst. split; assumption.
+Qed.
+
+Lemma parse_int_ren base f n : 2 <= base -> base <= 16 -> n < LIM -> n < base ^ N.of_nat (S f) ->
+  parse_int base (ren_fuel base (S f) n []) = Some (Z.of_N n).
+Proof.
+  intros Hb2 Hb16 Hn Hp.
+  assert (Hpd : parse_digits base 0 (ren_fuel base (S f) n []) = Some n).
+  { apply parse_ren_fuel; auto; unfold LIM in *; lia. }
+  destruct (ren_fuel_nonempty base f n) as (c & t & E).
+  pose proof (ren_fuel_digits base (S f) ltac:(lia) n [] (Forall_nil _)) as Hd.
+  unfold parse_int. rewrite E in *. inversion Hd as [|? ? Hc _]; subst.
+  destruct (digit_not_sign base c Hb16 Hc) as (H1 & H2 & _).
+  destruct (N.eqb_spec c PLUS); [contradiction|]. destruct (N.eqb_spec c MINUS); [contradiction|].
+  rewrite Hpd. destruct (N.ltb_spec n LIM); [reflexivity|lia].
 Qed.
 
 Theorem parse_int_dec n : n < LIM -> parse_int 10 (dec n) = Some (Z.of_N n).
 Proof.
-  intros Hn. destruct (dec_head n) as (c & t & E & Hc).
-  assert (Hp : parse_digits 10 0 (dec n) = Some n).
-  { unfold dec. apply parse_dec_fuel.
-    - replace (10 ^ N.of_nat 20) with 100000000000000000000 by (vm_compute; reflexivity). unfold LIM in Hn. lia.
-    - unfold LIM in *. lia.
-    - vm_compute. reflexivity. }
-  unfold parse_int. rewrite E in *.
-  assert (c <> PLUS /\ c <> MINUS).
-  { unfold is_num in Hc. apply andb_true_iff in Hc as [A B]. apply N.leb_le in A, B. unfold PLUS, MINUS. lia. }
-  destruct H as [H1 H2].
-  destruct (N.eqb_spec c PLUS); [contradiction|]. destruct (N.eqb_spec c MINUS); [contradiction|].
-  rewrite Hp. destruct (N.ltb_spec n LIM); [reflexivity|lia].
+  intros Hn. apply parse_int_ren; try lia.
+  replace (10 ^ N.of_nat 20) with 100000000000000000000 by (vm_compute; reflexivity). unfold LIM in Hn. lia.
 Qed.
-
-(* no space, CR or LF inside, first byte not a space *)
-Lemma dec_fuel_digits f : forall n acc, Forall (fun c => is_num c = true) acc -> Forall (fun c => is_num c = true) (dec_fuel f n acc).
+Theorem parse_int_hex n : n < LIM -> parse_int 16 (hex n) = Some (Z.of_N n).
 Proof.
-  induction f as [|f IH]; intros n acc Ha; cbn [dec_fuel]; auto.
-  assert (Hd : Forall (fun c => is_num c = true) ((48 + n mod 10) :: acc)).
-  { constructor; auto. apply is_num_digit, N.mod_lt; lia. }
-  destruct (n / 10 =? 0); auto.
+  intros Hn. apply parse_int_ren; try lia.
+  replace (16 ^ N.of_nat 16) with 18446744073709551616 by (vm_compute; reflexivity). unfold LIM in Hn. lia.
 Qed.
-Lemma dec_digits n : Forall (fun c => is_num c = true) (dec n).
-Proof. apply dec_fuel_digits. constructor. Qed.
